@@ -149,6 +149,12 @@ def properties(rep, cfg, opts, world, vcs, code, trace, hook_lines, args, old_ve
         parts = line.split(" ")
         if len(parts) != 3 or parts[1] != old_version or parts[2] != new_version:
             rep.violation("hook did not receive BUMPVER_OLD_VERSION/BUMPVER_NEW_VERSION", input=inp, **{"class": "hook-env"})
+    # the enabled steps do happen: a successful real run with committing on, in a directory where the VCS is usable, commits (and tags when tagging is on)
+    if has_vcs and code == 0 and not dry and eff_commit and "EWrite" in trace and not fail:
+        if "ECommit" not in trace:
+            rep.violation("exit 0 with committing enabled and a usable VCS, but no commit was made", input=inp, **{"class": "enabled-step-missing"})
+        elif eff_tag and not any(t in trace for t in ("ETagAnnotated", "ETagLight")):
+            rep.violation("exit 0 with tagging enabled, but no tag was made", input=inp, **{"class": "enabled-step-missing"})
     contradictory = (ocommit is False and (otag or opush)) or (not eff_commit and (otag or opush))
     if contradictory and (trace or code == 0):
         rep.violation("contradictory flags were not rejected before anything happened", input=inp, **{"class": "contradiction"})
